@@ -209,6 +209,17 @@ def check(ctx, rep):
                     key = "%s:Q1b:float-zero:%s" % (short, f)
                     # a normalised hash must test *this* field against zero
                     zero_guard = any(k == "binop" and nm.startswith("Eq") and re.search(r"_1\*\.%s Eq const 0$" % re.escape(f), txt) for k, nm, txt in ops["hash"])
+                    # ... or the field is handed, alone, to a helper that tests its own parameter against zero before taking the bits
+                    if not zero_guard:
+                        for k, nm, txt in ops["hash"]:
+                            if k == "call" and (nm.startswith("haystack::") or nm.startswith("<haystack::")) and re.search(r"\(_1\*\.%s\)$" % re.escape(f), txt):
+                                hb2 = prog.get(nm) or next((x for x in prog.bodies.values() if strip_generics(x.id) == nm), None)
+                                if hb2 is not None and hb2.arg_count == 1:
+                                    tests = [1 for bi2 in range(hb2.n) for st in hb2.blocks[bi2]["stmts"] if st["k"] == "assign" and st["rv"]["k"] == "binop" and st["rv"]["op"] == "Eq"
+                                             and repr(G.describe(hb2, st["rv"]["a"])) == "_1" and repr(G.describe(hb2, st["rv"]["b"])) == "const 0"]
+                                    bits = [1 for _b3, t3 in hb2.calls() if strip_generics(mir.callee_name(t3) or "").endswith("::to_bits")]
+                                    if tests and bits:
+                                        zero_guard = True
                     if eq_float and not plain_bits and not eq_bits and not zero_guard:
                         rep.bad("R-EQ", "R-EQ:" + key, where("hash"), "Q1: %s::hash normalises the value it hashes for .%s, but never tests .%s itself against zero (the test is on another field): +0.0 and -0.0 in .%s are equal with different hashes" % (short, f, f, f))
                         continue
